@@ -73,6 +73,8 @@ def _ops(other_grid):
     op("isel(t=0)", lambda x: x.isel(t=0))
     op("isel(t=[0,2])", lambda x: x.isel(t=[0, 2]))
     op("sel(t=20)", lambda x: x.sel(t=20.0))
+    op("isel(t=0,n_face=[0,1])", lambda x: x.isel(t=0, n_face=[0, 1]))
+    op("ux.isel(n_node=[2],lev=1)", lambda x: x.isel(n_node=[2], lev=1), ux_only=True)  # inclusive node selection: no xarray counterpart
     op("x[0]", lambda x: x[0] if x.dims[0] not in ("n_face", "n_node", "n_edge") else (_ for _ in ()).throw(KeyError("grid dim")))
     op("mean(t)", lambda x: x.mean("t"))
     op("sum(t)", lambda x: x.sum("t"))
@@ -125,6 +127,14 @@ def _grid_ok(obj):
     return None
 
 
+def _same_values(a, b):
+    if a.shape != b.shape:
+        return False
+    if a.dtype == object:
+        return repr(a.tolist()) == repr(b.tolist())
+    return bool(np.array_equal(a, b, equal_nan=a.dtype.kind in "fc"))
+
+
 def _canon(ux_obj, rel):
     import uxarray as ux
 
@@ -167,6 +177,7 @@ def run_case(case):
                     continue
                 focus = dict(case, only=p2)
                 xs = None
+                diverged = False
                 if not ux_only:
                     try:
                         xs = fn(x)
@@ -201,16 +212,19 @@ def run_case(case):
                         elif not (rg == gexp):
                             V.append({"oracle": "grid", "sig": "c10:deepcopy-grid-differs:%s" % oname, "msg": "start %s, program %s: deep copy's grid is not equal to the original's" % (sname, p2), "focus": focus})
                         gexp2, rel2 = rg, rel + "+deep"
+                    elif oname.startswith("isel(") and ("n_face=" in oname or "n_node=" in oname):
+                        gexp2, rel2 = rg, "ux:isel"  # a grid dimension was indexed: the grid is the sliced one
                     elif rg is not gexp:
                         V.append({"oracle": "grid", "sig": "c10:grid-not-same:%s" % oname, "msg": "start %s, program %s: result is attached to a different Grid object" % (sname, p2), "focus": focus})
                         gexp2 = rg
                     # differential values
                     try:
-                        ok = tuple(r.dims) == tuple(xs.dims) and r.name == xs.name and np.asarray(r.values).dtype == np.asarray(xs.values).dtype and np.array_equal(np.asarray(r.values), np.asarray(xs.values), equal_nan=np.asarray(xs.values).dtype.kind == "f")
+                        ok = tuple(r.dims) == tuple(xs.dims) and r.name == xs.name and np.asarray(r.values).dtype == np.asarray(xs.values).dtype and _same_values(np.asarray(r.values), np.asarray(xs.values))
                         cok = sorted(map(str, r.coords)) == sorted(map(str, xs.coords)) and all(np.array_equal(np.asarray(r.coords[k].values), np.asarray(xs.coords[k].values)) for k in xs.coords)
                     except Exception as e:
                         ok, cok = False, True
                     if not ok:
+                        diverged = True
                         V.append({"oracle": "diff", "sig": "c10:value-differs:%s" % oname, "msg": "start %s, program %s: dims/name/values differ from plain xarray (%s %s vs %s %s)" % (sname, p2, r.dims, r.name, xs.dims, xs.name), "focus": focus})
                     elif not cok:
                         V.append({"oracle": "diff", "sig": "c10:coords-differ:%s" % oname, "msg": "start %s, program %s: coordinates differ from plain xarray" % (sname, p2), "focus": focus})
@@ -220,7 +234,11 @@ def run_case(case):
                     xs = xr.DataArray(np.asarray(r.values).copy(), dims=r.dims, coords={k: v.values for k, v in r.coords.items() if set(v.dims) <= set(r.dims)}, name=r.name)
                 inv = _grid_ok(r)
                 if inv:
-                    V.append({"oracle": "invariant", "sig": "c10:invariant:%s" % oname, "msg": "start %s, program %s: %s" % (sname, p2, inv), "focus": focus})
+                    bdim = inv.split()[1] if inv.startswith("dimension") else "grid"
+                    V.append({"oracle": "invariant", "sig": "c10:invariant:%s:%s:%s-grid" % (oname, bdim, "closed" if m.closed else "partial"), "msg": "start %s, program %s: %s" % (sname, p2, inv), "focus": focus})
+                    continue  # reported at its source; programs are not extended from an inconsistent array
+                if diverged:
+                    continue  # reported at its source; the shadow no longer mirrors this array
                 key = _canon(r, rel2)
                 res["outcomes"].append(key)
                 if key not in seen:
@@ -251,10 +269,10 @@ def selftest_case(tier):
 
 
 def warmup(tier):
-    for f in (37, 40, 41, 42, 43, 44, 45, 46):
+    for f in (39, 42, 43, 44, 45, 46, 47, 48):
         run_case({"mesh": "mixedpatch", "start": 0, "first": f, "depth": 1})
-    run_case({"mesh": "mixedpatch", "start": 3, "first": 44, "depth": 1})
-    run_case({"mesh": "mixedpatch", "start": 6, "first": 39, "depth": 1})
+    run_case({"mesh": "mixedpatch", "start": 3, "first": 46, "depth": 1})
+    run_case({"mesh": "mixedpatch", "start": 6, "first": 41, "depth": 1})
 
 
 def run(ctx):
